@@ -37,7 +37,8 @@ SITE_RE = re.compile(
     r"|(?P<gaugeInc>\bbumpSess\s*\(\s*\))|(?P<idAlloc>\b_nextSessionId\s*\+\+|\+\+\s*_nextSessionId|_nextSessionId\s*\.\s*fetch_add\s*\()"
     r"|(?P<acceptCb>\bacceptCb\s*\()|(?P<connectCb>\bconnectCb\s*\()|(?P<dataCb>\bdataCb\s*\()"
     r"|(?P<pendingClear>(?:->|\.)\s*connectPending\s*=\s*false\b)"
-    r"|(?P<gaugeSet>_atomicStats\s*\.\s*sessionsCurrent\s*(?:\.\s*(?:store|exchange)\s*\(|=[^=]))")
+    r"|(?P<gaugeSet>_atomicStats\s*\.\s*sessionsCurrent\s*(?:\.\s*(?:store|exchange)\s*\(|=[^=]))"
+    r"|(?P<idSet>\b_nextSessionId\s*(?:\.\s*(?:store|exchange|fetch_sub|compare_exchange_\w+)\s*\(|=[^=]|-=|\+=|--)|--\s*_nextSessionId)")
 
 CTRL = ("if", "else", "for", "while", "switch", "do", "try", "catch")
 JUMP_RE = re.compile(r"\b(return|continue|break|throw)\b")
@@ -411,7 +412,7 @@ def functions(src):
 
 
 def kind_of(m):
-    for k in ("closeCb", "closeNow", "closedTrue", "gaugeDec", "gaugeInc", "idAlloc", "acceptCb", "connectCb", "dataCb", "pendingClear", "gaugeSet"):
+    for k in ("closeCb", "closeNow", "closedTrue", "gaugeDec", "gaugeInc", "idAlloc", "acceptCb", "connectCb", "dataCb", "pendingClear", "gaugeSet", "idSet"):
         if m.group(k):
             return k
     raise TranslateError("unclassified site")
@@ -496,6 +497,38 @@ FANOUT_TOKENS = [("lockSync", r"lock_guard<std::mutex>\s+lk\s*\(\s*syncMutex\s*\
                  ("cleanupGuard", r"if\s*\(\s*ud\.cleanup\s*&&\s*ud\.data\s*\)"), ("callCleanup", r"ud\.cleanup\s*\(\s*ud\.data\s*\)")]
 
 
+START_TOKENS = [("runningCas", r"_running\s*\.\s*compare_exchange_strong\s*\(\s*exp\s*,\s*true\s*\)"), ("retAlreadyRunning", r"already running"),
+                ("queueOpen", r"\b(_cmdsClosed|_qClosed)\s*=\s*false"), ("initTls", r"\binitTls\s*\(\s*\)"),
+                ("epollCreate", r"::epoll_create1\s*\("), ("eventfd", r"::eventfd\s*\("),
+                ("lockCmd", r"lock_guard<std::mutex>\s+g\s*\(\s*_cmdMutex\s*\)"), ("publishEventFd", r"\b_eventFd\s*=\s*efd\b"), ("timerfd", r"::timerfd_create\s*\("),
+                ("ioThread", r"_loop\s*=\s*std::thread\s*\("), ("retOk", r"StartResult::ok\s*\(\s*\)"),
+                ("mapsTouched", r"\b(_sessions|_fdTags|_tags|_peerIndex)\s*\.\s*(clear|erase|emplace|insert)\s*\("), ("idCounter", r"\b_nextSessionId\b")]
+
+
+def next_id_census(src, what):
+    """every textual use of `_nextSessionId`: the declaration (with its initial value), the post-increments (idAlloc sites) - and anything else
+    (a store / assignment / reset would let ids be reused, e.g. after a restart)"""
+    uses = [m.start() for m in re.finditer(r"\b_nextSessionId\b", src)]
+    decl = re.findall(r"std::atomic\s*<\s*SessionId\s*>\s*_nextSessionId\s*\{\s*(\d+)\s*\}\s*;", src)
+    if len(decl) != 1:
+        raise TranslateError("%s: declaration `std::atomic<SessionId> _nextSessionId{n};` not found exactly once" % what)
+    allocs = len(re.findall(r"\b_nextSessionId\s*\+\+", src))
+    return int(decl[0]), allocs, len(uses) - 1 - allocs
+
+
+def body_statements(src, fn, what, signature_contains=None):
+    """the whole body of a (small) member function, statement by statement, normalised"""
+    try:
+        body = cxxscan.function_body(src, fn, signature_contains=signature_contains)
+    except cxxscan.ScanError as e:
+        raise TranslateError("%s: %s" % (what, e))
+    return flat_block(body, parse_seq(body, 0, len(body)), 0, [])
+
+
+def lean_strs(xs):
+    return "[" + ", ".join('"%s"' % x.replace("\\", "\\\\").replace('"', '\\"') for x in xs) + "]"
+
+
 def lean_list(xs):
     return "[" + ", ".join('"%s"' % x for x in xs) + "]"
 
@@ -565,6 +598,25 @@ def delivery_facts(repo):
     # readModes is touched nowhere else in the handler
     if len(re.findall(r"\breadModes\b", src[ob:cb])) != len(re.findall(r"\breadModes\b", src[blocks[0].start:blocks[0].end])):
         raise TranslateError("cbs.onClose: readModes is used outside step 6")
+    # ---- order of the handler (FC03c): the syncMutex block (closed flag / tombstone / readModes.erase) relative to the user code it
+    # runs - the global close callback call and the observer loop.  Both calls exactly once, both at the top level of the lambda
+    # (not inside the block), the block entirely before both or entirely after both.
+    calls = [m2.start() + ob for m2 in re.finditer(r"\bcloseCb\s*\(\s*sid\s*,\s*reason\s*\)", src[ob:cb])]
+    loops = [m2.start() + ob for m2 in re.finditer(r"for\s*\(\s*auto\s*&\s*\[\s*obsId\s*,\s*obsCb\s*\]\s*:\s*sessionObservers\s*\)", src[ob:cb])]
+    ocalls = [m2.start() + ob for m2 in re.finditer(r"\bobsCb\s*\(\s*sid\s*,\s*reason\s*\)", src[ob:cb])]
+    if len(calls) != 1 or len(loops) != 1 or len(ocalls) != 1:
+        raise TranslateError("cbs.onClose: expected exactly one closeCb(sid, reason) call, one observer loop and one obsCb(sid, reason) call, found %d/%d/%d" % (len(calls), len(loops), len(ocalls)))
+    user = [calls[0], loops[0], ocalls[0]]
+    if any(blocks[0].start <= p <= blocks[0].end for p in user):
+        raise TranslateError("cbs.onClose: a close callback is invoked inside the syncMutex block")
+    if all(blocks[0].end <= p for p in user):
+        mark_first = True
+    elif all(p <= blocks[0].start for p in user):
+        mark_first = False
+    else:
+        raise TranslateError("cbs.onClose: the syncMutex block (closed flag / tombstone / readModes.erase) stands BETWEEN the global close callback and the observers")
+    # nothing between the pendingConnects suppression and the first of {block, callbacks} may return early: the statements between are
+    # pinned by the `fanout` token skeleton (Model/LifecycleSites.lean)
     # ---- setReadMode: statements up to and including the first syncMutex section
     try:
         body = cxxscan.function_body(src, "setReadMode")
@@ -588,7 +640,7 @@ def delivery_facts(repo):
             guard = True
     if not guard and any("closed" in x for x in sec):
         raise TranslateError("Transport::setReadMode: unrecognised use of the closed flag in the first critical section")
-    return step6, erase_always, entry, guard
+    return step6, erase_always, entry, guard, mark_first
 
 
 def peer_erase_guarded(src, fn, what):
@@ -670,11 +722,32 @@ def gen(repo):
         ncall = len([x for x in sites_ if x["kind"] == "closeCb"])
         ncopy = len(re.findall(r"lock_guard<std::mutex>\s+g\s*\(\s*_cbMutex\s*\)\s*;\s*closeCb\s*=\s*_cbs\.onClose", src_))
         t += "def %sCloseCbCalls : Nat := %d\ndef %sOnCloseCopies : Nat := %d\n" % (nm, ncall, nm, ncopy)
+    # ---- F3: close(sid) of both engines is exactly one enqueue of a Close command for that id (an accepted request is queued FIFO)
+    t += "/-- the whole body of TcpEngine::close / UdpEngine::close, statement by statement -/\n"
+    t += "def tcpClose : List String := %s\ndef udpClose : List String := %s\n" % (
+        lean_strs(body_statements(tsrc, "close", "TcpEngine::close", signature_contains="SessionId sid")),
+        lean_strs(body_statements(usrc, "close", "UdpEngine::close", signature_contains="SessionId sid")))
+    # ---- F6(c): the three timer handlers (TimerService thread) are one enqueue of a Close with the matching origin - nothing else
+    th = []
+    for fn in ("handleConnectTimeout", "handleHandshakeTimeout", "handleWriteStallTimeout"):
+        st = body_statements(tsrc, fn, "TcpEngine::" + fn)
+        m = re.match(r'^0:enqueue\(Command::close\(sid,TransportError::(\w+),"([^"]*)",CloseOrigin::(\w+)\)\);$', st[0]) if len(st) == 1 else None
+        th.append('("%s", "%s", "%s")' % (fn, m.group(3), m.group(1)) if m else '("%s", "?", "%s")' % (fn, " ".join(st).replace("\\", "").replace('"', "'")[:200]))
+    t += "/-- (handler, CloseOrigin, TransportError) of the three TimerService handlers when the body is exactly `enqueue(Command::close(sid, err, msg, origin));` -/\n"
+    t += "def tcpTimerHandlers : List (String × String × String) := [%s]\n" % ", ".join(th)
+    # ---- F4: start() (restart) and the id counter
+    t += "def tcpStart : List String := %s\ndef udpStart : List String := %s\n" % (
+        lean_list(skeleton(tsrc, "start", START_TOKENS, "TcpEngine::start")), lean_list(skeleton(usrc, "start", START_TOKENS, "UdpEngine::start")))
+    ti, ta, to = next_id_census(tsrc, "tcp_engine.hpp")
+    ui, ua, uo = next_id_census(usrc, "udp_engine.hpp")
+    t += "/-- `_nextSessionId`: initial value of the declaration, number of post-increments, number of ANY other textual use (store, assignment, ...) -/\n"
+    t += "def tcpNextIdInit : Nat := %d\ndef tcpNextIdAllocs : Nat := %d\ndef tcpNextIdOtherUses : Nat := %d\n" % (ti, ta, to)
+    t += "def udpNextIdInit : Nat := %d\ndef udpNextIdAllocs : Nat := %d\ndef udpNextIdOtherUses : Nat := %d\n" % (ui, ua, uo)
     fan, obs, unobs, setd = fanout_skeleton(repo)
     t += "/-- order of the Transport-level close handler (transport_impl.hpp, cbs.onClose) -/\n"
     t += "def fanout : List String := %s\n" % lean_list(fan)
     t += "def observe : List String := %s\ndef unobserve : List String := %s\ndef setSessionData : List String := %s\n" % (lean_list(obs), lean_list(unobs), lean_list(setd))
-    step6, erase_always, entry, guard = delivery_facts(repo)
+    step6, erase_always, entry, guard, mark_first = delivery_facts(repo)
     t += "/-- step 6 of the Transport close handler (the syncMutex block that closes the receive buffer or leaves a tombstone), statement by\nstatement with nesting depth -/\n"
     t += "def closeStep6 : List String := [\n  %s]\n" % ",\n  ".join('"%s"' % x.replace("\\", "\\\\").replace('"', '\\"') for x in step6)
     t += "/-- `readModes.erase(sid)` is the only use of readModes in the handler and sits at the top level of step 6 (unconditional) -/\n"
@@ -683,5 +756,7 @@ def gen(repo):
     t += "def setReadModeEntry : List String := [\n  %s]\n" % ",\n  ".join('"%s"' % x.replace("\\", "\\\\").replace('"', '\\"') for x in entry)
     t += "/-- setReadMode returns (true, no effect) for a closed tombstone before it reads or writes readModes (repair FC02a) -/\n"
     t += "def setReadModeRefusesTombstone : Bool := %s\n" % str(guard).lower()
+    t += "/-- the close handler runs its syncMutex block (closed flag / tombstone / readModes.erase) BEFORE the global close callback and the observers (repair FC03c) -/\n"
+    t += "def closeMarksBeforeCallbacks : Bool := %s\n" % str(mark_first).lower()
     t += "end Iora.Gen.CloseSites\n"
     return "IoraModel/Gen/CloseSites.lean", t
